@@ -217,8 +217,6 @@ def roundtrip_case(ctx, out, program, geom, origin, yaml_too=True):
     out.evaluations += 1
     desc = gd.pretty(program, geom)
     d, placed = gd.build(program, geom)
-    if gd.tie_distance(d) < 1e-7:
-        out.skip('tie_margin'); return
     for s in program:
         out.count('kind:' + s['kind'])
         if s['kind'] in gd.TWO_TERMINAL:
@@ -502,6 +500,44 @@ def declarative_case(ctx, out, desc, origin):
         return
     out.sample(desc)
 
+def axes_case(ctx, out, desc, origin):
+    """`create_schematic(description, circuit_ax=ax)` must build the drawing `create_schematic(description)` builds —
+    with the description's `unit`, and with the default unit when the description names none"""
+    from CircuitCalculator.SimpleSimulation.schematic import create_schematic
+    from CircuitCalculator.SimpleCircuit.DiagramTranslator import circuit_translator
+    from matplotlib.figure import Figure
+    import copy
+    for unit_given in (True, False):
+        d0 = copy.deepcopy(desc)
+        if not unit_given:
+            d0.pop('unit', None)
+        out.evaluations += 1
+        out.count('origin:' + origin)
+        try:
+            ref = create_schematic(copy.deepcopy(d0))
+            c_ref = circuit_translator(ref)
+        except Exception:
+            out.count('axes_reference_untranslatable'); continue
+        canon = dict(op='declarative', with_axes=True, unit_given=unit_given)
+        try:
+            sch = create_schematic(copy.deepcopy(d0), circuit_ax=Figure().subplots())
+            c = circuit_translator(sch)
+        except Exception as e:
+            out.spec_fail(dict(canon, symptom='raises', exc=c13.tag(e)),
+                          f'create_schematic(description, circuit_ax=ax) raises {type(e).__name__}: {e} (without axes it builds)', d0)
+            continue
+        bad = None
+        for i, (a, b) in enumerate(zip(sch.elements, ref.elements)):
+            for key in ('start', 'end'):
+                pa, pb = a.absanchors[key], b.absanchors[key]
+                if abs(pa[0] - pb[0]) > 1e-9 or abs(pa[1] - pb[1]) > 1e-9:
+                    bad = bad or f'element {i} {key} anchor {tuple(pa)} vs {tuple(pb)} without axes'
+        diff = same_circuit(c_ref, c)
+        if bad or diff is not None:
+            out.spec_fail(dict(canon, symptom='placement' if bad else diff[0]), f'with an axes the drawing differs: {bad or diff[2]}', d0)
+        else:
+            out.nontrivial(('axes', unit_given, len(desc['elements'])))
+
 def exhaustive_descriptions():
     """every handler × direction × placement option"""
     import random
@@ -604,6 +640,7 @@ def run(ctx, out):
         roundtrip_case(ctx, out, prog, gd.random_geometry(rng), 'random', yaml_too=False)
     for desc in DECL_CORPUS:
         declarative_case(ctx, out, desc, 'decl_corpus')
+        axes_case(ctx, out, desc, 'decl_axes')
     for desc in MALFORMED_DESCRIPTIONS:
         declarative_case(ctx, out, desc, 'decl_malformed')
     k = 0
@@ -633,6 +670,8 @@ def replay(ctx, out, rp):
             for k in ('a', 'b'):
                 if k in s: s[k] = tuple(s[k])
         roundtrip_case(ctx, out, prog, rp.get('geom'), 'replay', yaml_too=(rp.get('canon', {}).get('fmt') == 'yaml'))
+    elif isinstance(inp, dict) and 'elements' in inp and rp.get('canon', {}).get('with_axes'):
+        axes_case(ctx, out, inp, 'replay')
     elif isinstance(inp, dict) and 'elements' in inp:
         declarative_case(ctx, out, inp, 'replay')
     else:
